@@ -2,6 +2,7 @@ import LiquidModel.Drv.Codec
 import LiquidModel.Drv.Render
 import LiquidModel.Drv.FilterOp
 import LiquidModel.Drv.C01
+import LiquidModel.Drv.C02
 import LiquidModel.Drv.C04
 import LiquidModel.Drv.C05
 import LiquidModel.Drv.C06
@@ -18,13 +19,15 @@ import LiquidModel.Drv.C17
 import LiquidModel.Drv.C14
 import LiquidModel.Drv.C03
 namespace Liquid.Drv
-open C01 C03 C11 C12 C13 C14 C15 C16 C17
+open C01 C02 C03 C11 C12 C13 C14 C15 C16 C17
 
 /-- op name ↦ handler; each `Drv/*.lean` contributes its ops here. -/
 def dispatch (op : String) : Option (List String → String) :=
   match op with
   | "render" => some (renderOp baseFilters)
   | "bp" => some bpOp
+  | "c02" => some c02Op
+  | "c02f" => some c02fOp
   | "ptext" => some ptextOp
   | "c04" => some c04Op
   | "c05" => some c05Op
